@@ -7,6 +7,7 @@ source / manifest file, so an edited tree always gets fresh facts.
 import fcntl
 import hashlib
 import json
+import re
 import os
 import shutil
 import subprocess
@@ -148,5 +149,90 @@ def load(crate, config="default"):
             txt = fh.read()
         # rustc prints `core` items through whatever re-export is visible from the crate; canonicalise
         txt = txt.replace("bitflags::__private::core::", "core::")
+        if config != "default":
+            txt = _canon_no_std(txt)
         _loaded[key] = json.loads(txt)
     return _loaded[key]
+
+
+_PATH_TOKEN = re.compile(r"\b(?:core|alloc|std)(?:::(?:[A-Za-z_][A-Za-z_0-9]*|<impl [^<>]*>|<impl))+")
+_vocab = {}
+
+
+def _split_segs(tok):
+    """split a path token at `::` outside of `<impl …>` segments"""
+    out, cur, depth = [], "", 0
+    i = 0
+    while i < len(tok):
+        if tok[i] == "<":
+            depth += 1
+        elif tok[i] == ">":
+            depth -= 1
+        if depth == 0 and tok.startswith("::", i):
+            out.append(cur)
+            cur = ""
+            i += 2
+            continue
+        cur += tok[i]
+        i += 1
+    out.append(cur)
+    return out
+
+
+def _default_vocab():
+    """how often rustc prints a path prefix (module chain, incl. inherent `<impl T>` blocks and the item name) with `std::` resp.
+    `core::`/`alloc::` in the default (std) configuration of the same tree"""
+    h = tree_hash()
+    if h not in _vocab:
+        d = ensure("default")
+        with open(os.path.join(d, "profirust.json")) as fh:
+            txt = fh.read().replace("bitflags::__private::core::", "core::")
+        pref = {}
+        def scan(t):
+            for m in _PATH_TOKEN.finditer(t):
+                segs = _split_segs(m.group(0))
+                for j in range(2, len(segs) + 1):
+                    k = "::".join(segs[:j])
+                    pref[k] = pref.get(k, 0) + 1
+                for sg in segs:
+                    if sg.startswith("<impl ") and sg.endswith(">"):
+                        scan(sg[6:-1])
+        scan(txt)
+        _vocab[h] = pref
+    return _vocab[h]
+
+
+def _canon_no_std(txt):
+    """In no_std feature configurations rustc prints every core/alloc item as `core::…`/`alloc::…`, while the std configuration
+    prints the re-exported ones as `std::…`.  The rules are written against the std spelling: rewrite a `core::`/`alloc::` path to
+    `std::` when the std configuration of the same tree spells the longest known prefix of that path with `std::` (majority vote
+    when both spellings occur for a prefix, e.g. inherent slice methods of core vs. alloc)."""
+    vocab = _default_vocab()
+    cache = {}
+
+    def fix(m):
+        tok = m.group(0)
+        if tok.startswith("std::"):
+            return tok
+        orig = tok
+        r = cache.get(orig)
+        if r is not None:
+            return r
+        segs = _split_segs(tok)
+        # paths inside an inherent/trait impl segment (`<impl core::clone::Clone for u16>`) are canonicalised on their own
+        segs = [("<impl " + _PATH_TOKEN.sub(fix, sg[6:-1]) + ">") if (sg.startswith("<impl ") and sg.endswith(">")) else sg for sg in segs]
+        tok = "::".join(segs)
+        as_std = "std::" + "::".join(segs[1:])
+        out = None
+        for j in range(len(segs), 1, -1):
+            nc = vocab.get("::".join(segs[:j]), 0)
+            ns = vocab.get("std::" + "::".join(segs[1:j]), 0)
+            if nc == 0 and ns == 0:
+                continue
+            out = as_std if ns > nc else tok
+            break
+        if out is None:
+            out = as_std  # unseen anywhere: most of core/alloc is re-exported by std
+        cache[orig] = out
+        return out
+    return _PATH_TOKEN.sub(fix, txt)
